@@ -19,7 +19,7 @@ TITLE = "The outcome of load() does not depend on earlier loads on the same data
 RULE = (
     "outputs: 3-D hilbert (4-8 CPUs, mesh+part+sink) and 2-D; argument alphabet A = {full, ['mesh'], ['part'], "
     "['sink'], variable subset, value predicate, position box narrowing the CPU list, level cap, cpu_list, "
-    "sortby, part switched off}; quick: all ordered pairs of A on 2 outputs exhaustively + random triples; "
+    "sortby (particles, sinks by a column that reverses them, cells), part switched off}; quick: all ordered pairs of A on 2 outputs exhaustively + random triples; "
     "thorough: random sequences of length 2-6.  Non-trivial = the sequence contains a call that narrows state "
     "(box, level cap, cpu_list) followed by a call that must not be narrowed; distinct = distinct (output, "
     "sequence)."
@@ -27,7 +27,7 @@ RULE = (
 ASSUMPTIONS = ["each single call from a fresh dataset is judged by C01/C04/C12/C13/C14"]
 
 ALPHABET = ["full", "mesh-only", "part-only", "sink-only", "varsubset", "value", "box", "levelcap", "cpulist",
-            "sortby", "part-off"]
+            "sortby", "part-off", "sortby-sink", "sortby-mesh"]
 NARROWING = {"box", "levelcap", "cpulist", "value", "varsubset", "mesh-only", "part-only", "sink-only", "part-off"}
 
 
@@ -103,6 +103,18 @@ def make_args(osy, name, model, rng):
     if name == "sortby":
         key = "identity" if any(n == "identity" for n, t in sp["part"]["descriptor"]) else sp["part"]["descriptor"][0][0]
         return {"sortby": {"part": key}}, f"sortby part {key}"
+    if name == "sortby-sink":
+        # a column that descends with the row (odd column index in the synthesiser): sorting reverses the table
+        cols = [c[0] for c in sp["sink"]["columns"]]
+        odd = [c for k, c in enumerate(cols) if k % 2 == 1] or cols
+        names = {"x": "position", "y": "position", "z": "position", "vx": "velocity", "vy": "velocity", "vz": "velocity",
+                 "lx": "angular_momentum", "ly": "angular_momentum", "lz": "angular_momentum"}
+        key = next((c for c in odd if c not in names), None)
+        if key is None:
+            key = next((c for c in cols if c not in names), cols[0])
+        return {"sortby": {"sink": key}}, f"sortby sink {key}"
+    if name == "sortby-mesh":
+        return {"sortby": {"mesh": "density"}}, "sortby mesh density"
     raise ValueError(name)
 
 
